@@ -46,7 +46,7 @@ PermMat(k, p, neg) == [i \in 1..(k * k) |-> IF p[Col(i, k)] = Row(i, k) THEN (IF
 IdPerm(k) == [i \in 1..k |-> i]
 
 Init == \E k \in {2, 3, 4} : \E p \in LAPerms(k) : \E neg \in 0..k :
-          /\ (k >= 3 /\ neg # 0) => p = IdPerm(k)
+          /\ (k = 4 /\ neg # 0) => p = IdPerm(k)
           /\ n = k /\ e = PermMat(k, p, neg) /\ d = 0
           /\ s = LAPermSign(p, k) * (IF neg = 0 THEN 1 ELSE -1)
 
@@ -79,101 +79,86 @@ BUp(k) == LIToQ(IBUp(k), k)
 Bs(k) == {BReg(k), BSing(k), BPerm(k)}
 V1(k) == LIVToQ(IV1(k))
 Tr(k) == LIVToQ(ITr(k))
-IsIntM(m) == \A i \in 1..Len(m.e) : LAQIsInt(m.e[i])
-VEq(a, b) == Len(a) = Len(b) /\ \A i \in 1..Len(a) : QEq(a[i], b[i])
 \* a named law: prints its name when it fails (TLC then reports the invariant as violated)
 Law(name, cond) == cond \/ (PrintT(<<"LAW VIOLATED", name>>) /\ FALSE)
 
 \* ---- the laws on the native-integer layer, in EVERY reachable state
+\* (the quantifiers over singleton sets bind det / adj / inverse ... to values computed once, see GlmLinAlg)
 LawsInt ==
-    LET det == LIDet(e, n)
-        adj == LIAdj(e, n)
-        inv == LIInverseUni(e, n)
-        id == LIIdentity(n)
-        et == LITranspose(e, n)
-        v == IV1(n)
-    IN
+    \A det \in {LIDet(e, n)} : \A adj \in {LIAdj(e, n)} : \A inv \in {LIInverseUni(e, n)} : \A et \in {LITranspose(e, n)} :
+    \A id \in {LIIdentity(n)} : \A v \in {IV1(n)} : \A br \in {IBReg(n)} :
     /\ Law("I: det = sign predicted by the walk, +-1", det = s /\ s \in {-1, 1})
     /\ Law("I: det transpose", LIDet(et, n) = det)
-    /\ Law("I: det multiplicative", \A B \in IBs(n) : /\ LIDet(LIMul(e, B, n), n) = det * LIDet(B, n)
-                                                     /\ LIDet(LIMul(B, e, n), n) = det * LIDet(B, n))
+    /\ Law("I: det multiplicative", \A B \in IBs(n) : \A db \in {LIDet(B, n)} : /\ LIDet(LIMul(e, B, n), n) = det * db
+                                                                              /\ LIDet(LIMul(B, e, n), n) = det * db)
     /\ Law("I: M adj = adj M = det I", LIMul(e, adj, n) = LIScale(id, det) /\ LIMul(adj, e, n) = LIScale(id, det))
     /\ Law("I: inv M = M inv = I", LIMul(inv, e, n) = id /\ LIMul(e, inv, n) = id /\ LIDet(inv, n) = det)
     /\ Law("I: inverseTranspose", LITranspose(inv, n) = LIInverseUni(et, n))
     /\ Law("I: (B M) / M = B", \A B \in IBs(n) : LIMul(LIMul(B, e, n), inv, n) = B)
     /\ Law("I: M / (M v) = v, (v M) / M = v", LIMulVec(inv, LIMulVec(e, v, n), n) = v /\ LIVecMul(LIVecMul(v, e, n), inv, n) = v)
-    /\ Law("I: v (A B) = (v A) B", LIVecMul(v, LIMul(e, IBReg(n), n), n) = LIVecMul(LIVecMul(v, e, n), IBReg(n), n) /\
-                                   LIMulVec(LIMul(e, IBReg(n), n), v, n) = LIMulVec(e, LIMulVec(IBReg(n), v, n), n))
+    /\ Law("I: v (A B) = (v A) B", LIVecMul(v, LIMul(e, br, n), n) = LIVecMul(LIVecMul(v, e, n), br, n) /\
+                                   LIMulVec(LIMul(e, br, n), v, n) = LIMulVec(e, LIMulVec(br, v, n), n))
     /\ Law("I: affine embedding and affineInverse",
-           LET A == LIAffineFrom(e, ITr(n), n) AI == LIAffineInverseUni(A, n + 1) IN
+           \A A \in {LIAffineFrom(e, ITr(n), n)} : \A AI \in {LIAffineInverseUni(A, n + 1)} :
            /\ LIIsAffine(A, n + 1) /\ LIIsAffine(AI, n + 1) /\ LILinearPart(A, n + 1) = e /\ LITranslation(A, n + 1) = ITr(n)
            /\ LIMul(AI, A, n + 1) = LIIdentity(n + 1) /\ LIMul(A, AI, n + 1) = LIIdentity(n + 1)
            /\ LIAffineInverseUni(AI, n + 1) = A
            /\ (n <= 3 => LIDet(A, n + 1) = det /\ AI = LIInverseUni(A, n + 1)))
 
-\* ---- the laws on the rational layer (LinQ) and the agreement of both layers, in the states of depth <= XDepth
-\* All laws are evaluated under one LET so that det / adj / inverse of the state are computed once.
+\* ---- the laws on the rational layer (LinQ) and the agreement of both layers, in the states of depth < XDepth
 LawsQ ==
-    LET M == LIToQ(e, n)
-        IdM == MIdentity(n)
-        Mt == MTranspose(M)
-        Det == MDet(M)
-        Adj == MAdj(M)
-        Inv == MInv(M)
-        InvT == LAInverseTranspose(M)
-        v == V1(n)
-    IN
+    \A M \in {LIToQ(e, n)} : \A IdM \in {LAForce(MIdentity(n))} : \A v \in {V1(n)} : \A br \in {BReg(n)} :
+    \A Mt \in {LATranspose(M)} : \A Det \in {MDet(M)} : \A Adj \in {LAAdjugate(M)} : \A Inv \in {LAInverse(M)} : \A InvT \in {LAInverseTranspose(M)} :
     \* ---- both layers agree
-    /\ Law("Q = I: det, adj, inverse", /\ QEq(Det, QI(LIDet(e, n))) /\ MEq(Adj, LIToQ(LIAdj(e, n), n)) /\ MEq(Inv, LIToQ(LIInverseUni(e, n), n))
-                                       /\ MEq(MMul(M, BReg(n)), LIToQ(LIMul(e, IBReg(n), n), n))
-                                       /\ VEq(MVec(M, v), LIVToQ(LIMulVec(e, IV1(n), n))) /\ VEq(VMat(v, M), LIVToQ(LIVecMul(IV1(n), e, n)))
-                                       /\ MEq(Mt, LIToQ(LITranspose(e, n), n)))
+    /\ Law("Q = I: det, adj, inverse", /\ QEq(Det, QI(LIDet(e, n))) /\ LAMatEq(Adj, LIToQ(LIAdj(e, n), n)) /\ LAMatEq(Inv, LIToQ(LIInverseUni(e, n), n))
+                                       /\ LAMatEq(LAMul(M, br), LIToQ(LIMul(e, IBReg(n), n), n))
+                                       /\ LAVecEq(LAMulVec(M, v), LIVToQ(LIMulVec(e, IV1(n), n))) /\ LAVecEq(LAVecMul(v, M), LIVToQ(LIVecMul(IV1(n), e, n)))
+                                       /\ LAMatEq(Mt, LIToQ(LITranspose(e, n), n))
+                                       /\ LAMatEq(Inv, MInv(M)) /\ LAMatEq(Adj, MAdj(M)))
     \* ---- InvDet
     /\ Law("det = sign predicted by the walk, +-1", QEq(Det, QI(s)) /\ s \in {-1, 1})
     /\ Law("Leibniz = Laplace", QEq(LALeibniz(M), Det))
     /\ Law("det transpose", QEq(MDet(Mt), Det))
-    /\ Law("det multiplicative", /\ QEq(MDet(MMul(M, BReg(n))), QMul(Det, MDet(BReg(n))))
-                                  /\ QEq(MDet(MMul(BReg(n), M)), QMul(Det, MDet(BReg(n))))
-                                  /\ QIsZero(MDet(MMul(BSing(n), M)))
-                                  /\ QEq(MDet(MMul(M, BPerm(n))), QMul(Det, MDet(BPerm(n)))))
+    /\ Law("det multiplicative", /\ QEq(LADet(LAMul(M, br)), QMul(Det, MDet(br)))
+                                  /\ QEq(LADet(LAMul(br, M)), QMul(Det, MDet(br)))
+                                  /\ QIsZero(LADet(LAMul(BSing(n), M)))
+                                  /\ QEq(LADet(LAMul(M, BPerm(n))), QMul(Det, LADet(BPerm(n)))))
     \* ---- InvAdj
-    /\ Law("M adj = det I", MEq(MMul(M, Adj), MScale(IdM, Det)) /\ MEq(MMul(Adj, M), MScale(IdM, Det)))
+    /\ Law("M adj = det I", LAMatEq(LAMul(M, Adj), LAScale(IdM, Det)) /\ LAMatEq(LAMul(Adj, M), LAScale(IdM, Det)))
     /\ Law("|det| <= permanent of |M|", QLe(QAbs(Det), LAPerm(LAAbs(M))))
     \* ---- InvInverse
-    /\ Law("unimodular, integer inverse", IsIntM(M) /\ IsIntM(Inv) /\ QEq(MDet(Inv), Det) /\ (n = 2 => LAIsUnimodular(M)))
-    /\ Law("inv M = M inv = I", MEq(MMul(Inv, M), IdM) /\ MEq(MMul(M, Inv), IdM) /\ MEq(Inv, MScale(Adj, QInv(Det))))
-    /\ Law("inverseTranspose", MEq(InvT, MInv(Mt)) /\ MEq(MMul(MTranspose(InvT), M), IdM))
+    /\ Law("unimodular, integer inverse", LAIsIntM(M) /\ LAIsIntM(Inv) /\ QEq(MDet(Inv), Det) /\ LAIsUnimodular(M))
+    /\ Law("inv M = M inv = I", LAMatEq(LAMul(Inv, M), IdM) /\ LAMatEq(LAMul(M, Inv), IdM))
+    /\ Law("inverseTranspose", LAMatEq(InvT, LAInverse(Mt)) /\ LAMatEq(LAMul(LATranspose(InvT), M), IdM))
     /\ Law("cond >= 1", QLe(QOne, LACond(M, Inv)))
-    /\ Law("dyadic scaling rule", LET Ms == LAMatMul2k(M, -3) IN LASeqExp(Ms.e) = 3 /\ MEq(LAMatUp(Ms, 3), M)
-                                                                /\ (n = 2 => MEq(LAMatMul2k(MInv(Ms), -3), Inv)))
+    /\ Law("dyadic scaling rule", \A Ms \in {LAMatMul2k(M, -3)} : LASeqExp(Ms.e) = 3 /\ LAMatEq(LAMatUp(Ms, 3), M)
+                                                                /\ LAMatEq(LAMatMul2k(LAInverse(Ms), -3), Inv))
     \* ---- InvDiv
-    /\ Law("(B M) / M = B", /\ MEq(LADivMM(MMul(BReg(n), M), M), BReg(n))
-                             /\ \A B \in {BSing(n), BPerm(n)} : MEq(MMul(MMul(B, M), Inv), B))
-    /\ Law("M / (M v) = v", VEq(MVec(Inv, MVec(M, v)), v) /\ VEq(LADivMV(M, v), MVec(Inv, v)))
-    /\ Law("(v M) / M = v", VEq(VMat(VMat(v, M), Inv), v) /\ VEq(LADivVM(v, M), VMat(v, Inv)))
-    /\ Law("scaled product", MEq(LAMMulD(LAMatMul2k(M, -2), LAMatMul2k(BReg(n), -5)), LAMatMul2k(MMul(M, BReg(n)), -7)))
+    /\ Law("(B M) / M = B", \A B \in Bs(n) : LAMatEq(LADivMM(LAMul(B, M), M), B))
+    /\ Law("M / (M v) = v", LAVecEq(LADivMV(M, LAMulVec(M, v)), v))
+    /\ Law("(v M) / M = v", LAVecEq(LADivVM(LAVecMul(v, M), M), v))
+    /\ Law("scaled product", LAMatEq(LAMMulD(LAMatMul2k(M, -2), LAMatMul2k(br, -5)), LAMatMul2k(LAMul(M, br), -7)))
     \* ---- InvAffine
     /\ (n <= 3 =>
-          LET t == Tr(n) A == LAAffineFrom(M, t) AI == LAAffineInverse(A) IN
-          /\ Law("affine embedding", LAIsAffine(A) /\ LAIsAffine(AI) /\ MEq(LALinearPart(A), M) /\ VEq(LATranslation(A), t)
-                                     /\ MEq(A, LIToQ(LIAffineFrom(e, ITr(n), n), n + 1)))
-          /\ Law("affineInverse = inverse", /\ MEq(AI, LAAffineInverseWith(Inv, t))
-                                            /\ MEq(AI, LIToQ(LIAffineInverseUni(LIAffineFrom(e, ITr(n), n), n + 1), n + 1))
-                                            /\ MEq(MMul(AI, A), MIdentity(n + 1)) /\ MEq(MMul(A, AI), MIdentity(n + 1))
-                                            /\ (n = 2 => MEq(AI, MInv(A))))
-          /\ Law("affineInverse involution", MEq(LAAffineInverseWith(M, LATranslation(AI)), A))
-          /\ Law("det affine", QEq(MDet(A), Det)))
+          \A t \in {Tr(n)} : \A A \in {LAAffineFrom(M, t)} : \A AI \in {LAAffineInverse(A)} :
+          /\ Law("affine embedding", LAIsAffine(A) /\ LAIsAffine(AI) /\ LAMatEq(LALinearPart(A), M) /\ LAVecEq(LATranslation(A), t)
+                                     /\ LAMatEq(A, LIToQ(LIAffineFrom(e, ITr(n), n), n + 1)))
+          /\ Law("affineInverse = inverse", /\ LAMatEq(AI, LAAffineInverseWith(Inv, t))
+                                            /\ LAMatEq(AI, LIToQ(LIAffineInverseUni(LIAffineFrom(e, ITr(n), n), n + 1), n + 1))
+                                            /\ LAMatEq(AI, LAInverse(A)))
+          /\ Law("affineInverse involution", LAMatEq(LAAffineInverse(AI), A))
+          /\ Law("det affine", QEq(LADet(A), Det)))
     \* ---- InvQuery
-    /\ LET eps == QF(1, 10) rel == QF(1, 1000) sp == LAIsSignedPerm(M) IN
+    /\ \A eps \in {QF(1, 10)} : \A rel \in {QF(1, 1000)} : \A sp \in {LAIsSignedPerm(M)} :
        /\ Law("isIdentity", (LAIsIdentityM(M, eps, rel) = "T") = (e = PermMat(n, IdPerm(n), 0)) /\ LAIsIdentityM(M, eps, rel) # "U")
        /\ Law("isOrthogonal", (LAIsOrthogonalM(M, eps, rel) = "T") = sp)
        /\ Law("isNormalized", (LAIsNormalizedM(M, eps, rel) = "T") = sp)
        /\ Law("isNull", LAIsNullM(M, eps, rel) = "F")
        /\ Law("init signed permutation", d = 0 => sp)
-       /\ Law("flips", /\ MEq(LAFlipLR(LAFlipLR(M)), M) /\ MEq(LAFlipUD(LAFlipUD(M)), M)
-                       /\ MEq(LAFlipUD(M), MTranspose(LAFlipLR(Mt))))
+       /\ Law("flips", /\ LAMatEq(LAFlipLR(LAFlipLR(M)), M) /\ LAMatEq(LAFlipUD(LAFlipUD(M)), M)
+                       /\ LAMatEq(LAFlipUD(M), LATranspose(LAFlipLR(Mt))))
 XDepth(k) == IF k = 2 THEN X2 ELSE IF k = 3 THEN X3 ELSE X4
-Laws == LawsInt /\ (d <= XDepth(n) => LawsQ)
+Laws == LawsInt /\ (d < XDepth(n) => LawsQ)
 
 \* E2: every visited matrix, for the harness
 Emit == IF "OUT" \in DOMAIN IOEnv
@@ -186,7 +171,7 @@ ASSUME QEq(MDet(Mat(2, 2, <<QI(1), QI(3), QI(2), QI(4)>>)), QI(-2))
 ASSUME QEq(LALeibniz(Mat(3, 3, <<QI(2), QI(0), QI(1), QI(1), QI(3), QI(0), QI(0), QI(1), QI(4)>>)), QI(25))
 ASSUME ~MEq(MAdj(Mat(2, 2, <<QI(1), QI(3), QI(2), QI(4)>>)), MTranspose(MAdj(Mat(2, 2, <<QI(1), QI(3), QI(2), QI(4)>>))))
 ASSUME \A k \in 2..4 : /\ \A B \in Bs(k) \cup {BUp(k)} : QEq(LALeibniz(B), MDet(B))
-                       /\ MEq(LAAdjugate(BReg(k)), MScale(MInv(BReg(k)), MDet(BReg(k))))
+                       /\ LAMatEq(LAAdjugate(BReg(k)), LAScale(LAInverse(BReg(k)), MDet(BReg(k))))
                        /\ QIsZero(MDet(BSing(k))) /\ ~QIsZero(MDet(BReg(k)))
                        /\ LAIsUpperTri(BUp(k)) /\ LAIsUpperTriLR(BUp(k)) /\ ~LAIsUpperTri(MTranspose(BUp(k))) /\ ~LAIsUpperTri(BReg(k))
                        /\ QEq(MDet(LADiagonal(k, k, V1(k))), LAProd(V1(k)))
@@ -199,5 +184,8 @@ ASSUME \A k \in -70..70 : \A f \in {F32, F64} :
           /\ (k % 2 # 0 => LISmallIntW(Pattern(f, RoundQ(f, QF(k, 2), 0))) = LINotInt)
           /\ (k # 0 => LISmallIntW(Pattern(f, RoundQ(f, QI(k * 2048), 0))) = LINotInt)
 ASSUME LISmallIntW(<<0, 32768>>) = 0 /\ LISmallIntW(<<0, 32640>>) = LINotInt /\ LISmallIntW(<<1, 0>>) = LINotInt /\ LISmallIntW(<<1, 0, 0, 16368>>) = LINotInt
+ASSUME \A k \in 1..4 : /\ {LAPermTable[k][i] : i \in 1..Len(LAPermTable[k])} = LAPerms(k) /\ Len(LAPermTable[k]) = Cardinality(LAPerms(k))
+                       /\ \A i \in 1..Len(LAPermTable[k]) : LASignTable[k][i] = LAPermSign(LAPermTable[k][i], k)
+ASSUME \A k \in 1..5 : \A j \in 1..k : LASkip[k][j] = SetToSortSeq((1..k) \ {j}, <) /\ LAIota[k] = [i \in 1..k |-> i]
 ASSUME Cardinality(LAPerms(4)) = 24 /\ LAPermSign(<<2, 1, 3, 4>>, 4) = -1 /\ LAPermSign(<<2, 3, 1>>, 3) = 1
 =============================================================================
